@@ -1,22 +1,27 @@
-//! C06 — comments: text, VML shapes and the positional join (`c06 reset cmt <seed>`, `c06 reset cmtw <id>`,
-//! `c06 reset cmtf <corpus file>`).
+//! C06 — comments: text, VML shapes and their join to the comments by the cell a note shape names
+//! (`c06 reset cmt <seed>`, `c06 reset cmtw <id>`, `c06 reset cmtp <seed>`, `c06 reset cmtf <corpus file>`).
 //!
 //! A case builds comments through the public API from generated values (texts with XML specials, blanks at the
 //! ends, line breaks, rich runs with and without fonts; authors incl. the empty one; 0-12 comments on scattered
 //! cells in random insertion order; anchors explicit and default; hidden / visible mixes), saves, reloads.
-//! Oracle (implementation): the getter view of every comment before == after, in list order, fonts included.
+//! Oracle (implementation): the getter view of every comment before == after, in list order, fonts included;
+//! `x:Row` / `x:Column` of the shape after reload must name the comment's own cell (the model's `norm`: the writer
+//! sets them from the coordinate, whatever the shape held).
 //! Tie (model): the real `comments{n}.xml` and `vmlDrawing{n}.vml` of the package go to the Lean driver
 //! (`c06 cmt <specs> <hex comments part> <hex vml part>`), which lexes them with the independent XML reader and
 //! answers (a) whether they are tree-equal to `writeComments` / `writeVml` of the specs, (b) the getter view of
-//! `joinByPosition (readComments ..) (readVml ..)` on the real trees — expected to equal the reloaded getters.
+//! `joinShapes (readComments ..) (readVml ..)` on the real trees — expected to equal the reloaded getters.
+//! `cmtp`: a generated workbook is saved, the `v:shape` elements of every VML part are put into another order
+//! (reversed / rotated / shuffled, what Excel does to `commentList` order) and the package is reloaded: every
+//! comment must still have its own shape (oracle), and (b) on the permuted part (`C06_comment_join_by_cell`).
 //! `cmtf`: a corpus file with comments: only (b), plus the check that every joined shape names its comment's cell
-//! (`validCommentParts`; a failure there is a reader defect on a real producer's file: C03 territory).
+//! (a failure there is a reader defect on a real producer's file: C03 territory).
 use crate::common::*;
 use crate::wb;
 use umya_spreadsheet::structs::vml::spreadsheet::*;
 use umya_spreadsheet::structs::*;
 
-pub const WITNESSES: &[&str] = &["no-column-target", "order", "blank-holders"];
+pub const WITNESSES: &[&str] = &["no-column-target", "order", "blank-holders", "stale-target"];
 
 const TEXT_ALPHABET: &str = "ab Z9<>&\"' \n\r\t\u{e9}\u{3000}\u{1F600};,:=";
 const AUTHORS: &[&str] = &["", "Ann", "Bob & Co", "<x>", " lead blank", "\u{e9}ve", "a\"q'", "Z"];
@@ -61,6 +66,11 @@ fn font_sig(f: Option<&Font>) -> String {
 
 /// the getter view of one comment; `fonts`: include the font signature (oracle) or only its presence (tie)
 fn view(c: &Comment, fonts: bool) -> String {
+    view_as(c, fonts, false)
+}
+
+/// `norm`: what the comment must come back as — `x:Row` / `x:Column` name the comment's own cell (zero-based)
+fn view_as(c: &Comment, fonts: bool, norm: bool) -> String {
     let runs: Vec<String> = c
         .get_text()
         .get_rich_text_elements()
@@ -86,8 +96,8 @@ fn view(c: &Comment, fonts: bool) -> String {
         a.get_right_offset(),
         a.get_bottom_row(),
         a.get_bottom_offset(),
-        cd.get_comment_row_target().map(|t| format!("={}", t.get_value())).unwrap_or("~".into()),
-        cd.get_comment_column_target().map(|t| format!("={}", t.get_value())).unwrap_or("~".into()),
+        if norm { format!("={}", c.get_coordinate().get_row_num().saturating_sub(1)) } else { cd.get_comment_row_target().map(|t| format!("={}", t.get_value())).unwrap_or("~".into()) },
+        if norm { format!("={}", c.get_coordinate().get_col_num().saturating_sub(1)) } else { cd.get_comment_column_target().map(|t| format!("={}", t.get_value())).unwrap_or("~".into()) },
         tfb(cd.get_visible().map(|m| m.get_value())),
     )
 }
@@ -251,7 +261,8 @@ fn witness(id: &str) -> Result<Spreadsheet, String> {
         c
     };
     match id {
-        // witness of C06_comment_no_column_target_fails: the first comment is built without `new_comment`
+        // C06_comment_no_column_target (was the witness of the retired refutation, repaired by fix 26940198): the
+        // first comment is built without `new_comment`
         "no-column-target" => {
             let mut a = Comment::default();
             a.get_coordinate_mut().set_col_num(1).set_row_num(1);
@@ -292,9 +303,136 @@ fn witness(id: &str) -> Result<Spreadsheet, String> {
             ws.add_comments(a);
             ws.add_comments(mk((2, 2), "Bob", "u"));
         }
+        // a comment created on A1 and moved to C3 afterwards (its shape still names A1), next to a comment that IS on A1
+        "stale-target" => {
+            let mut a = mk((1, 1), "Ann", "moved");
+            a.get_coordinate_mut().set_col_num(3).set_row_num(3);
+            ws.add_comments(a);
+            let mut b = mk((1, 1), "Ann", "stays");
+            let an = b.get_anchor_mut();
+            an.set_left_column(7).set_left_offset(7).set_top_row(7).set_top_offset(7).set_right_column(7).set_right_offset(7).set_bottom_row(7).set_bottom_offset(7);
+            ws.add_comments(b);
+        }
         _ => return Err(format!("unknown witness {}", id)),
     }
     Ok(book)
+}
+
+/// the `v:shape` elements of a VML part put into another order (mode 0: reversed, 1: rotated by one, 2: shuffled);
+/// everything before the first and after the last shape stays where it is
+fn permute_shapes(vml: &str, mode: u64, rng: &mut Rng) -> Option<String> {
+    let first = vml.find("<v:shape ")?;
+    let mut shapes: Vec<&str> = vec![];
+    let mut rest = &vml[first..];
+    while rest.starts_with("<v:shape ") {
+        let end = rest.find("</v:shape>")? + "</v:shape>".len();
+        shapes.push(&rest[..end]);
+        rest = &rest[end..];
+    }
+    if shapes.len() < 2 {
+        return None;
+    }
+    let mut order: Vec<usize> = (0..shapes.len()).collect();
+    match mode {
+        0 => order.reverse(),
+        1 => order.rotate_left(1),
+        _ => {
+            for i in (1..order.len()).rev() {
+                let j = rng.below(i as u64 + 1) as usize;
+                order.swap(i, j);
+            }
+            if order.iter().enumerate().all(|(i, &j)| i == j) {
+                order.reverse();
+            }
+        }
+    }
+    let mut out = vml[..first].to_string();
+    for i in order {
+        out.push_str(shapes[i]);
+    }
+    out.push_str(rest);
+    Some(out)
+}
+
+/// `c06 reset cmtp <seed>`: the shapes of the saved VML parts in another order than `commentList`
+fn permuted_case(out: &mut Out, header: &str, seed: u64) {
+    out.begin(header);
+    let book = guard(|| gen_book(seed, out));
+    out.end(header, "ok", false);
+    let book = match book {
+        Ok(b) => b,
+        Err(_) => {
+            out.oracle_fail(Fail::new("case-build-failed").with("op", header).with("detail", "generator panicked"));
+            return;
+        }
+    };
+    out.count("case.cmtp");
+    out.count("programs");
+    let bytes = match guard(|| wb::save_bytes(&book, false)) {
+        Ok(Ok(b)) => b,
+        _ => {
+            out.oracle_fail(Fail::new("save-failed").with("op", header));
+            return;
+        }
+    };
+    let mut parts = unzip_all(&bytes).unwrap_or_default();
+    let mut rng = Rng::new(seed ^ 0x9E37);
+    let mode = rng.below(3);
+    let mut permuted = 0;
+    for (n, d) in parts.iter_mut() {
+        if n.starts_with("xl/drawings/vmlDrawing") {
+            if let Some(p) = std::str::from_utf8(d).ok().and_then(|x| permute_shapes(x, mode, &mut rng)) {
+                *d = p.into_bytes();
+                permuted += 1;
+            }
+        }
+    }
+    out.count(&format!("cmtp.mode.{}", ["reversed", "rotated", "shuffled"][mode as usize]));
+    if permuted == 0 {
+        out.count("cmtp.nothing-to-permute");
+    }
+    out.count_n("cmtp.parts-permuted", permuted);
+    let back = match reload(&crate::c03::zip_parts(&parts, false)) {
+        Ok(b) => b,
+        Err(e) => {
+            out.oracle_fail(Fail::new("reload-failed").with("op", header).with("detail", e));
+            return;
+        }
+    };
+    for i in 0..book.get_sheet_count() {
+        let ws = book.get_sheet(&i).unwrap();
+        let bws = match back.get_sheet(&i) {
+            Some(w) => w,
+            None => {
+                out.oracle_fail(Fail::new("comment-changed").with("op", header).with("sheet", i.to_string()).with("detail", "sheet missing"));
+                continue;
+            }
+        };
+        let before: Vec<String> = ws.get_comments().iter().map(|c| view_as(c, true, true)).collect();
+        let after: Vec<String> = bws.get_comments().iter().map(|c| view(c, true)).collect();
+        if before == after {
+            out.oracle_ok();
+        } else {
+            let k = before.iter().zip(after.iter()).position(|(x, y)| x != y).unwrap_or(before.len().min(after.len()));
+            out.oracle_fail(
+                Fail::new("comment-shape-mispaired")
+                    .with("op", header)
+                    .with("sheet", i.to_string())
+                    .with("detail", format!("item {}: before={} after={}", k, before.get(k).map(|s| s.as_str()).unwrap_or("<none>"), after.get(k).map(|s| s.as_str()).unwrap_or("<none>")).chars().take(900).collect::<String>()),
+            );
+            out.count("cmtp.mispaired");
+        }
+        if ws.get_comments().is_empty() {
+            continue;
+        }
+        if let (Some(cx), Some(vx)) = parts_of_sheet(&parts, &format!("xl/worksheets/sheet{}.xml", i + 1)) {
+            let line = format!("c06 cmtr {} {}", hex(cx), hex(vx));
+            out.begin(&line);
+            out.end(&line, &format!("r={}", sheet_view(bws, false)), true);
+            out.count("tie.cmtr");
+            out.count_n("tie.cmtp.items", ws.get_comments().len() as u64);
+        }
+    }
 }
 
 fn part<'a>(parts: &'a [(String, Vec<u8>)], name: &str) -> Option<&'a str> {
@@ -443,6 +581,10 @@ pub fn run_case(out: &mut Out, header: &str) {
         file_case(out, header, a.get(3).copied().unwrap_or(""));
         return;
     }
+    if a.get(2) == Some(&"cmtp") {
+        permuted_case(out, header, a.get(3).and_then(|x| x.parse().ok()).unwrap_or(0));
+        return;
+    }
     out.begin(header);
     let book = match a.get(2).copied() {
         Some("cmt") => {
@@ -486,8 +628,8 @@ pub fn run_case(out: &mut Out, header: &str) {
                 continue;
             }
         };
-        // oracle: getter view (fonts included) before == after, comment by comment
-        let before: Vec<String> = ws.get_comments().iter().map(|c| view(c, true)).collect();
+        // oracle: getter view (fonts included) before == after, comment by comment; after reload the shape names the comment's cell
+        let before: Vec<String> = ws.get_comments().iter().map(|c| view_as(c, true, true)).collect();
         let after: Vec<String> = bws.get_comments().iter().map(|c| view(c, true)).collect();
         if before == after {
             out.oracle_ok();
@@ -563,6 +705,10 @@ pub fn gen(tier: Tier, rng: &mut Rng) -> Vec<String> {
     let n = if tier == Tier::Thorough { 1500 } else { 150 };
     for _ in 0..n {
         v.push(format!("c06 reset cmt {}", rng.next() % 1_000_000_007));
+    }
+    let np = if tier == Tier::Thorough { 600 } else { 60 };
+    for _ in 0..np {
+        v.push(format!("c06 reset cmtp {}", rng.next() % 1_000_000_007));
     }
     for f in corpus_with_comments() {
         v.push(format!("c06 reset cmtf {}", f));
